@@ -3,5 +3,8 @@ package all
 
 import (
 	_ "verif/props/c14"
+	_ "verif/props/c15"
 	_ "verif/props/c16"
+	_ "verif/props/c17"
+	_ "verif/props/cmachine"
 )
